@@ -32,13 +32,13 @@ func init() {
 	register(&PropertyDef{
 		ID:          "C12",
 		Title:       "Invitations are self-authenticating; replication descriptors cannot read",
-		Explanation: "Decides, from the type-checked SSA of /repo: (D1) by finite-domain abstract evaluation of MetadataStore.GroupJoin, one scenario per group type (each enum value and one undeclared value), signature verdict and key-parse verdict: the call that appends the AccountGroupJoined event is reachable, or a nil error is returned, only when Verify(key parsed from the group's PublicKey, Secret, SecretSig) accepted and the type is multi-member; and every module caller of GroupJoin returns an error on every path once GroupJoin has refused; (D6) in every module caller of GroupJoin, a call that receives the same group and may write to a datastore/keystore (effect summaries) or open an orbit-db store is not executable on any path on which GroupJoin has not accepted the group (evaluated with GroupJoin refusing: before the validating call, without it, after its failure); (D2) by a field-label dataflow over FilterGroupForReplication and the module functions it uses: the returned descriptor is neither the input nor a copy or serialisation of it, and no value stored into a field of it can be computed back to the raw Secret (the secret reaches it only through the one-way functions listed under trusted base); (D3) the access-controller manifest stored by DefaultOrbitDBOptions and the store name given to DetermineAddress depend on no field of the group other than PublicKey, SignPub and a one-way image of Secret, and the descriptor carries exactly those inputs (PublicKey copied, SignPub = signing public key); (D4) by abstract evaluation of the SecretStore implementation's GetOwnMemberDeviceForGroup per group type: for a multi-member group no key of the returned member/device pair is a keystore entry stored under a constant (account-wide) name; (D5) the secretbox.Open calls that open GroupEnvelope.Event and MessageEnvelope.MessageHeaders (and any other box keyed on a group parameter) take a key computed from the raw Secret, which by D2 the descriptor lacks. Not decided: unforgeability of Ed25519 and one-wayness of HKDF / public-key derivation (trusted); that the append itself succeeds; that message payload keys (chain keys) reach only members (C05); implicit (control-dependence) flows of the secret; writes into the input group (it is treated as immutable); a descriptor built by copying the whole group and clearing fields afterwards is reported although it could be correct (the dataflow is flow-insensitive); deferred closures are not interpreted by the evaluator (checked not to assign captured variables).",
+		Explanation: "Decides, from the type-checked SSA of /repo: (D1) by finite-domain abstract evaluation of MetadataStore.GroupJoin, one scenario per group type (each enum value and one undeclared value), signature verdict and key-parse verdict: the call that appends the AccountGroupJoined event is reachable, or a nil error is returned, only when Verify(key parsed from the group's PublicKey, Secret, SecretSig) accepted and the type is multi-member; and every module caller of GroupJoin returns an error on every path once GroupJoin has refused; (D6) in every module caller of GroupJoin, a call that receives the same group and may write to a datastore/keystore (effect summaries) or open an orbit-db store is not executable on any path on which GroupJoin has not accepted the group (evaluated with GroupJoin refusing: before the validating call, without it, after its failure); (D7) in every module caller of GroupJoin that receives a group (a group parameter or a group field of a request message), evaluated once per group type: the group object handed to GroupJoin has the GroupType, PublicKey, Secret and SecretSig of the group received (the same object, or a copy whose fields all come from it) — a field known to hold something else (a constant type, another field, an in-place assignment) is reported, a group built by library code is opaque and only noted; (D8) at every module call that returns the own member/device pair for a group (a result implementing OwnMemberDevice, a group parameter): nothing derived from the result (the pair, its keys, their raw bytes) is stored into a field of an object reachable from a parameter/receiver/captured variable, or into a package variable, unless the group argument is itself a field of that same object; objects under construction, map entries and locals are not reported (this is the write side of 'always under the keys derived for that group'; that every DevicePk/MemberPk field of an outgoing message is read from the right object is not decided); (D2) by a field-label dataflow over FilterGroupForReplication and the module functions it uses: the returned descriptor is neither the input nor a copy or serialisation of it, and no value stored into a field of it can be computed back to the raw Secret (the secret reaches it only through the one-way functions listed under trusted base); (D3) the access-controller manifest stored by DefaultOrbitDBOptions and the store name given to DetermineAddress depend on no field of the group other than PublicKey, SignPub and a one-way image of Secret, and the descriptor carries exactly those inputs (PublicKey copied, SignPub = signing public key); (D4) by abstract evaluation of the SecretStore implementation's GetOwnMemberDeviceForGroup per group type: for a multi-member group no key of the returned member/device pair is a keystore entry stored under a constant (account-wide) name; (D5) the secretbox.Open calls that open GroupEnvelope.Event and MessageEnvelope.MessageHeaders (and any other box keyed on a group parameter) take a key computed from the raw Secret, which by D2 the descriptor lacks. Not decided: unforgeability of Ed25519 and one-wayness of HKDF / public-key derivation (trusted); that the append itself succeeds; that message payload keys (chain keys) reach only members (C05); implicit (control-dependence) flows of the secret; writes into the input group (it is treated as immutable); a descriptor built by copying the whole group and clearing fields afterwards is reported although it could be correct (the dataflow is flow-insensitive); deferred closures are not interpreted by the evaluator (checked not to assign captured variables).",
 		Trusted: []string{"golang.org/x/tools go/packages+go/ssa (v0.29.0)", "go/types",
 			"libp2p crypto.PubKey.Verify / UnmarshalEd25519PublicKey semantics",
 			"one-way functions: crypto.PrivKey.GetPublic, ed25519.PrivateKey.Public, hkdf.New/Extract/Expand/Key, hmac.New, sha256/sha512/sha3/blake2b sums",
 			"keystore names are the identity of a key (go-ipfs-keystore Get/Put)"},
 		Assumptions: []string{"dependencies behave as documented; only module code is analysed", "label dataflow is flow-insensitive and ignores control dependence"},
-		Floors:      map[string]int{"D1": 5, "D2": 1, "D3": 4, "D4": 1, "D5": 2, "D6": 1},
+		Floors:      map[string]int{"D1": 5, "D2": 1, "D3": 4, "D4": 1, "D5": 2, "D6": 1, "D7": 1, "D8": 8},
 		Run:         runC12,
 	})
 }
@@ -544,6 +544,8 @@ func c12HasConstArg(cc *ssa.CallCommon, want *types.Const) bool {
 func runC12(c *Ctx) {
 	c12D1(c)
 	c12D6(c)
+	c12D7(c)
+	c12D8(c)
 	flow := newC12Flow(c.W)
 	c12D2D3(c, flow)
 	c12D4(c)
@@ -990,6 +992,424 @@ func c12D6(c *Ctx) {
 		c.note("D6: GroupJoin has no caller inside the module")
 	}
 	c.count("join_callers_checked_for_early_effects", n)
+}
+
+// ---- D7: the group that is validated is the invitation that was received ------
+
+func c12D7(c *Ctx) {
+	w := c.W
+	join := w.lookupMethod(pkgRoot, "MetadataStore", "GroupJoin")
+	gt := namedType(w, pkgTypes, "GroupType")
+	grp := namedType(w, pkgTypes, "Group")
+	if join == nil || join.Blocks == nil || gt == nil || grp == nil {
+		c.undecided("D7", "MetadataStore.GroupJoin", token.NoPos, "MetadataStore.GroupJoin, protocoltypes.Group or GroupType not found")
+		return
+	}
+	gIdx := -1
+	for i, p := range join.Params {
+		if c12IsGroupStruct(p.Type()) {
+			gIdx = i
+		}
+	}
+	gst, _ := grp.Underlying().(*types.Struct)
+	if gIdx < 0 || gst == nil {
+		c.undecided("D7", fnName(join), join.Pos(), "GroupJoin has no group parameter")
+		return
+	}
+	// the fields an invitation is made of (statement: identifier, secret, signature, type)
+	fieldType := map[string]types.Type{}
+	for i := 0; i < gst.NumFields(); i++ {
+		fieldType[gst.Field(i).Name()] = gst.Field(i).Type()
+	}
+	checked := []string{"GroupType", "PublicKey", "Secret", "SecretSig"}
+	for _, f := range checked {
+		if fieldType[f] == nil {
+			c.undecided("D7", fnName(join), join.Pos(), "protocoltypes.Group has no field %s", f)
+			return
+		}
+	}
+	var typeVals []int64
+	typeName := map[int64]string{}
+	maxV := int64(0)
+	for _, k := range enumValues(gt) {
+		v, _ := constant.Int64Val(k.Val())
+		typeVals = append(typeVals, v)
+		typeName[v] = strings.TrimPrefix(k.Name(), "GroupType_")
+		if v > maxV {
+			maxV = v
+		}
+	}
+	typeVals = append(typeVals, maxV+94)
+	typeName[maxV+94] = fmt.Sprintf("%d (undeclared)", maxV+94)
+
+	mentionsGroup := func(f *ssa.Function) bool {
+		sig := f.Signature
+		if sig.Recv() != nil && c12IsGroupStruct(sig.Recv().Type()) {
+			return true
+		}
+		for i := 0; i < sig.Params().Len(); i++ {
+			if c12IsGroupStruct(sig.Params().At(i).Type()) {
+				return true
+			}
+		}
+		for i := 0; i < sig.Results().Len(); i++ {
+			if c12IsGroupStruct(sig.Results().At(i).Type()) {
+				return true
+			}
+		}
+		return false
+	}
+	n := 0
+	for _, cs := range w.callGraph().callers[join] {
+		jcall, ok := cs.Instr.(*ssa.Call)
+		if !ok {
+			continue
+		}
+		caller := cs.Caller
+		n++
+		c.analysed(caller)
+		construct := fnName(caller) + "+joined-group-is-the-invitation"
+		// where an invitation can come in: a group parameter, or a group field of a request
+		var sources []string
+		for _, p := range caller.Params {
+			if c12IsGroupStruct(p.Type()) {
+				sources = append(sources, p.Name())
+				continue
+			}
+			if pt, ok := p.Type().Underlying().(*types.Pointer); ok {
+				if st, ok := pt.Elem().Underlying().(*types.Struct); ok {
+					for i := 0; i < st.NumFields(); i++ {
+						if _, isPtr := st.Field(i).Type().Underlying().(*types.Pointer); isPtr && c12IsGroupStruct(st.Field(i).Type()) {
+							sources = append(sources, p.Name()+"."+st.Field(i).Name())
+						}
+					}
+				}
+			}
+		}
+		if len(sources) == 0 {
+			c.ok("D7", construct, posOf(jcall), "%s receives no group from its caller: the group it joins is built locally", fnName(caller))
+			continue
+		}
+		bad := map[string]bool{}
+		reached, opaque := 0, 0
+		trunc := ""
+		for _, tv := range typeVals {
+			tv := tv
+			cfg := EvalConfig{
+				Field: func(path string, t types.Type) (AVal, bool) {
+					for _, src := range sources {
+						if path == src+".GroupType" {
+							return aConst{V: constant.MakeInt64(tv), T: t}, true
+						}
+						if strings.HasPrefix(path, src+".") && c12IsByteSlice(t) {
+							return aSym{Path: path}, true
+						}
+					}
+					return nil, false
+				},
+				Inline: func(f *ssa.Function) bool { return inModule(f) && f != join && mentionsGroup(f) },
+				Call: func(ev *Evaluator, st *pstate, k string, cc *ssa.CallCommon, args []AVal) ([]AVal, bool) {
+					switch {
+					case staticCallee(cc) == join:
+						res := make([]AVal, cc.Signature().Results().Len())
+						if gIdx >= len(args) {
+							return res, true
+						}
+						reached++
+						p, ok := args[gIdx].(aPtr)
+						if !ok {
+							opaque++
+							return res, true
+						}
+						// compare with each possible source; the group is fine if it agrees with one
+						var best []string
+						for si, src := range sources {
+							var diffs []string
+							for _, f := range checked {
+								got := ev.load(st, aPtr{ID: p.ID, Sym: p.Sym, Path: p.Path + "." + f}, fieldType[f])
+								if got == nil {
+									continue // unknown: not a known-bad shape
+								}
+								if f == "GroupType" {
+									if gc, ok := got.(aConst); ok && gc.V.Kind() == constant.Int {
+										if gv, _ := constant.Int64Val(gc.V); gv != tv {
+											name := typeName[gv]
+											if name == "" {
+												name = gc.V.String()
+											}
+											diffs = append(diffs, fmt.Sprintf("GroupType is set to %s when the invitation says %s", name, typeName[tv]))
+										}
+									}
+									continue
+								}
+								if gs, ok := got.(aSym); ok {
+									if gs.Path != src+"."+f {
+										diffs = append(diffs, fmt.Sprintf("%s is taken from %s", f, gs.Path))
+									}
+								} else {
+									diffs = append(diffs, fmt.Sprintf("%s is replaced by %s", f, c12AV(got)))
+								}
+							}
+							if si == 0 || len(diffs) < len(best) {
+								best = diffs
+							}
+						}
+						for _, d := range best {
+							bad[d] = true
+						}
+						return res, true
+					case c12ErrKey(k):
+						return []AVal{aNonNil{Tag: "error"}}, true
+					}
+					return nil, false
+				},
+			}
+			for _, o := range c12Eval(w, cfg, caller) {
+				if o.Kind == "truncated" {
+					trunc = o.Why
+				}
+			}
+		}
+		var bl []string
+		for k := range bad {
+			bl = append(bl, k)
+		}
+		sort.Strings(bl)
+		switch {
+		case len(bl) > 0:
+			c.fail("D7", construct, posOf(jcall), "the group %s hands to GroupJoin is not the invitation it received (%s): %s — the validation then no longer sees the change made to the invitation, and joining does not fail", fnName(caller), strings.Join(sources, " / "), strings.Join(bl, "; "))
+		case trunc != "":
+			c.undecided("D7", construct, posOf(jcall), "abstract evaluation truncated: %s", trunc)
+		case reached == 0:
+			c.undecided("D7", construct, posOf(jcall), "the call of GroupJoin was not reached by the abstract evaluation of %s", fnName(caller))
+		default:
+			if opaque > 0 {
+				c.note("D7: in %s the group given to GroupJoin is opaque to the evaluator on %d of %d evaluated paths (built by library code): not compared", fnName(caller), opaque, reached)
+			}
+			c.ok("D7", construct, posOf(jcall), "for every group type the group validated by GroupJoin has the type, id, secret and signature of the invitation received (%s)", strings.Join(sources, " / "))
+		}
+	}
+	if n == 0 {
+		c.note("D7: GroupJoin has no caller inside the module")
+	}
+	c.count("join_callers_checked_for_rewritten_invitation", n)
+}
+
+// ---- D8: an identity obtained for one group is not cached outside that group -----
+
+// c12IdentityCall: a call that returns the own member/device pair of a group: some result
+// implements secretstore.OwnMemberDevice and some parameter is the group. Returns the group
+// argument.
+func c12IdentityCall(cc *ssa.CallCommon, omd *types.Interface) (ssa.Value, bool) {
+	sig := cc.Signature()
+	hasRes := false
+	for i := 0; i < sig.Results().Len(); i++ {
+		t := sig.Results().At(i).Type()
+		if _, isIface := t.Underlying().(*types.Interface); isIface {
+			if types.Identical(t.Underlying(), omd) {
+				hasRes = true
+			}
+			continue
+		}
+		if types.Implements(t, omd) {
+			hasRes = true
+		}
+	}
+	if !hasRes {
+		return nil, false
+	}
+	off := 0
+	if !cc.IsInvoke() && sig.Recv() != nil {
+		off = 1
+	}
+	for i := 0; i < sig.Params().Len(); i++ {
+		if c12IsGroupStruct(sig.Params().At(i).Type()) && i+off < len(cc.Args) {
+			return cc.Args[i+off], true
+		}
+	}
+	return nil, false
+}
+
+func c12D8(c *Ctx) {
+	w := c.W
+	var omd *types.Interface
+	if p := w.typesPkg(pkgSecret); p != nil {
+		if o := p.Scope().Lookup("OwnMemberDevice"); o != nil {
+			omd, _ = o.Type().Underlying().(*types.Interface)
+		}
+	}
+	if omd == nil {
+		c.undecided("D8", "secretstore.OwnMemberDevice", token.NoPos, "interface secretstore.OwnMemberDevice not found")
+		return
+	}
+	nSites := 0
+	for _, fn := range w.ModFuncs {
+		type site struct {
+			call  *ssa.Call
+			group ssa.Value
+		}
+		var sites []site
+		for _, b := range fn.Blocks {
+			for _, in := range b.Instrs {
+				if call, ok := in.(*ssa.Call); ok {
+					if g, ok := c12IdentityCall(call.Common(), omd); ok {
+						sites = append(sites, site{call, g})
+					}
+				}
+			}
+		}
+		if len(sites) == 0 {
+			continue
+		}
+		c.analysed(fn)
+		for _, s := range sites {
+			nSites++
+			// values that carry the identity: the result, what its methods return, conversions of
+			// those, local variable cells holding them
+			der := map[ssa.Value]bool{s.call: true}
+			for changed := true; changed; {
+				changed = false
+				mark := func(v ssa.Value) {
+					if v != nil && !der[v] {
+						der[v] = true
+						changed = true
+					}
+				}
+				for _, b := range fn.Blocks {
+					for _, in := range b.Instrs {
+						switch x := in.(type) {
+						case *ssa.Store:
+							if !der[x.Val] {
+								continue
+							}
+							if al, ok := x.Addr.(*ssa.Alloc); ok {
+								if _, isStruct := al.Type().Underlying().(*types.Pointer).Elem().Underlying().(*types.Struct); !isStruct {
+									mark(al) // a local variable cell
+								}
+							}
+						case *ssa.Call:
+							if x == s.call {
+								continue
+							}
+							cc := x.Common()
+							if _, isB := cc.Value.(*ssa.Builtin); isB {
+								continue
+							}
+							hit := cc.IsInvoke() && der[cc.Value]
+							for _, a := range cc.Args {
+								if der[a] {
+									hit = true
+								}
+							}
+							if hit {
+								mark(x)
+							}
+						case *ssa.Extract:
+							if der[x.Tuple] {
+								mark(x)
+							}
+						case *ssa.Phi:
+							for _, e := range x.Edges {
+								if der[e] {
+									mark(x)
+								}
+							}
+						case *ssa.UnOp:
+							if x.Op == token.MUL && der[x.X] {
+								mark(x)
+							}
+						case *ssa.MakeInterface:
+							if der[x.X] {
+								mark(x)
+							}
+						case *ssa.ChangeInterface:
+							if der[x.X] {
+								mark(x)
+							}
+						case *ssa.ChangeType:
+							if der[x.X] {
+								mark(x)
+							}
+						case *ssa.Convert:
+							if der[x.X] {
+								mark(x)
+							}
+						case *ssa.TypeAssert:
+							if der[x.X] {
+								mark(x)
+							}
+						case *ssa.Slice:
+							if der[x.X] {
+								mark(x)
+							}
+						}
+					}
+				}
+			}
+			gPath, gOK := accessPath(s.group)
+			var bad []string
+			for _, b := range fn.Blocks {
+				for _, in := range b.Instrs {
+					st, ok := in.(*ssa.Store)
+					if !ok || !der[st.Val] || isErrorType(st.Val.Type()) {
+						continue
+					}
+					where, root := "", ""
+					if ap, ok := accessPath(st.Addr); ok {
+						if _, isAlloc := st.Addr.(*ssa.Alloc); isAlloc {
+							continue
+						}
+						where = ap
+						root = ap
+						if i := strings.Index(ap, "."); i >= 0 {
+							root = ap[:i]
+						}
+					} else {
+						base := st.Addr
+						for {
+							if fa, ok := base.(*ssa.FieldAddr); ok {
+								base = fa.X
+							} else if ia, ok := base.(*ssa.IndexAddr); ok {
+								base = ia.X
+							} else {
+								break
+							}
+						}
+						gl, isGlobal := base.(*ssa.Global)
+						if !isGlobal {
+							continue // fresh object under construction, or memory not named
+						}
+						where = "package variable " + gl.Name()
+					}
+					if root != "" && gOK && strings.HasPrefix(gPath, root+".") {
+						continue // the object that keeps the identity is the one that holds the group
+					}
+					bad = append(bad, fmt.Sprintf("%s at %s", where, c.pos(st.Pos())))
+				}
+			}
+			name := "call"
+			if s.call.Common().IsInvoke() {
+				name = s.call.Common().Method.Name()
+			} else if f := staticCallee(s.call.Common()); f != nil {
+				name = f.Name()
+			}
+			construct := fnName(fn) + "+" + name
+			gDesc := "a group that is not a field of that object"
+			if gOK {
+				gDesc = "group " + gPath
+			}
+			if len(bad) > 0 {
+				sort.Strings(bad)
+				c.fail("D8", construct, posOf(s.call), "the member/device identity obtained for %s is kept in %s, memory that is not bound to that group (no per-group key, the group is not held by the same object): it is then used for whichever group comes next, so a group joined by invitation is operated under another group's — possibly the account's — keys", gDesc, strings.Join(bad, "; "))
+			} else {
+				c.ok("D8", construct, posOf(s.call), "identity obtained for %s is used locally, put into an object under construction, a per-group map, or an object that holds that group", gDesc)
+			}
+		}
+	}
+	if nSites == 0 {
+		c.undecided("D8", "GetOwnMemberDeviceForGroup", token.NoPos, "no call returning an OwnMemberDevice for a group found in the module")
+	}
+	c.count("own_identity_call_sites", nSites)
 }
 
 // ---- D2 / D3: descriptor and log address inputs ----------------------------
